@@ -74,6 +74,13 @@ func runC12(e *sim.Env) {
 	// faults): blocks reach nodes that are not connected to their source only
 	// through the relays
 	static := e.Chance(1, 4)
+	// 1 run in 6 (with three or more nodes): a hub that is behind everybody else
+	// in a static star, so that it syncs from peers on different forks at once
+	contest := k >= 3 && e.Chance(1, 6)
+	if contest {
+		static = true
+		e.Shape("contest")
+	}
 	if static {
 		e.Shape("static")
 	}
@@ -116,6 +123,11 @@ func runC12(e *sim.Env) {
 		}
 		if i == 0 {
 			target = dominant
+		}
+		if contest && i == 1 {
+			for j, back := 0, e.Range(3, 20); j < back && target.Parent != nil; j++ {
+				target = target.Parent
+			}
 		}
 		feed(e, "C12", n, target)
 		e.Logf("%s starts on %s", n.name, target.Describe())
@@ -165,6 +177,9 @@ func runC12(e *sim.Env) {
 	// topology
 	var edges [][2]int
 	topo := []string{"line", "star", "ring", "clique"}[e.Intn(4)]
+	if contest {
+		topo = "star"
+	}
 	switch topo {
 	case "line":
 		for i := 0; i+1 < k; i++ {
@@ -172,6 +187,9 @@ func runC12(e *sim.Env) {
 		}
 	case "star":
 		c := e.Intn(k)
+		if contest {
+			c = 1
+		}
 		for i := 0; i < k; i++ {
 			if i != c {
 				edges = append(edges, [2]int{c, i})
@@ -339,7 +357,7 @@ var _ = sim.NewEnv
 func init() {
 	register(&Prop{
 		ID: "C12", Run: runC12, Race: true, RunTimeout: 20, Quick: 1500, Thorough: 30000, Level: "exploration",
-		Rule:        "one run = drawn network, fork tree (1 run in 8 with a 90-230 block stretch beyond the 100-block request split and the exponential history sample) made dominant, 2-5 real nodes (syncer + gateway + mux + manager) each started on its own branch or interior block, a drawn topology (line, star, ring, clique) and connection order, drawn sync interval / discovery interval / MaxSendBlocks / peer limits, per-connection latency and jitter from a seeded PRNG, and for 2 runs in 3 a phase of partitions, heals and connection resets; 1 run in 3 (when the heaviest chain reaches above the require height) adds 1-2 nodes started from a v2 checkpoint on it (chain.NewDBStoreAtCheckpoint), attached to a drawn full node; 1 run in 4 instead keeps the drawn topology static (no peer discovery, no faults) so that nodes not connected to the source depend on the relays; after the last fault every node must, within 45 simulated minutes, sit on the unique sufficiently-heaviest valid chain; in half of the runs above the require height a drawn node then extends the chain by 1-4 blocks and announces the tip (header only / header then outline / outline only) and all nodes must reach it within the same bound, and the C01 audit must hold on every node at every poll; distinct = (regime, topology, size, fault kinds); all completed runs are non-trivial",
+		Rule:        "one run = drawn network, fork tree (1 run in 8 with a 90-230 block stretch beyond the 100-block request split and the exponential history sample) made dominant, 2-5 real nodes (syncer + gateway + mux + manager) each started on its own branch or interior block, a drawn topology (line, star, ring, clique) and connection order, drawn sync interval / discovery interval / MaxSendBlocks / peer limits, per-connection latency and jitter from a seeded PRNG, and for 2 runs in 3 a phase of partitions, heals and connection resets; 1 run in 3 (when the heaviest chain reaches above the require height) adds 1-2 nodes started from a v2 checkpoint on it (chain.NewDBStoreAtCheckpoint), attached to a drawn full node; 1 run in 4 instead keeps the drawn topology static (no peer discovery, no faults) so that nodes not connected to the source depend on the relays, and 1 run in 6 with three or more nodes makes that a star whose hub starts 3-20 blocks behind a drawn tip, so that it syncs from peers on different forks at once; after the last fault every node must, within 45 simulated minutes, sit on the unique sufficiently-heaviest valid chain; in half of the runs above the require height a drawn node then extends the chain by 1-4 blocks and announces the tip (header only / header then outline / outline only) and all nodes must reach it within the same bound, and the C01 audit must hold on every node at every poll; distinct = (regime, topology, size, fault kinds); all completed runs are non-trivial",
 		Real:        []string{"syncer.Syncer (accept/peer/sync loops, parallel sync, relays)", "go.sia.tech/core/gateway + go.sia.tech/mux (real handshake, encryption, framing)", "chain.Manager + chain.DBStore per node"},
 		Stub:        []string{"network: simnet in-memory TCP (seeded per-connection delays, partitions, resets)", "peer store: harness peerStore with real bans", "disk: simdisk.DB"},
 		Assumptions: []string{"goroutine wake-up order is whatever the single-P runtime produces; it is perturbed per seed through drawn network delays, not chosen event by event", "checkpoint-bootstrapped nodes are leaves attached to a full node (they cannot serve history below their checkpoint)"},
